@@ -256,12 +256,23 @@ def vmacroN (c : Cfg) (x : Elem) (n : Nat) (w : W) : Option VS × W × Bool :=
         | (v, w, none) => (none, (dropVec c v w).1, true)
         | (v, w, some _) => (some v, w, true)
 
-/-- `bumpalo::vec![in b; a, b, c]`: `new_in` and pushes -/
-def vmacroList (c : Cfg) : List Elem → VS → W → VS × W
-  | [], v, w => (v, w)
+/-- the pushes of `bumpalo::vec![in b; a, b, c]` (vec.rs:269-273): `$( v.push($x); )*`, each element
+expression evaluated right before its push.  `some rest`: a `push` panicked (growth refused; it
+dropped its argument), the expressions `rest` were never evaluated. -/
+def vmacroList (c : Cfg) : List Elem → VS → W → VS × W × Option (List Elem)
+  | [], v, w => (v, w, none)
   | e :: es, v, w =>
     match push c v e w with
-    | (v, w, _) => vmacroList c es v w
+    | (v, w, none) => (v, w, some es)
+    | (v, w, some _) => vmacroList c es v w
+
+/-- `bumpalo::vec![in b; a, b, c]`: `new_in`, the pushes, the vector is the value of the block;
+when a `push` panics the unwinding drops the partly built vector; the values of the expressions
+that were never evaluated (last component) stay with the caller -/
+def vmacroListOp (c : Cfg) (es : List Elem) (w : W) : Option VS × W × List Elem :=
+  match vmacroList c es newVec w with
+  | (v, w, none) => (some v, w, [])
+  | (v, w, some rest) => (none, (dropVec c v w).1, rest)
 
 /-! ## append / split_off -/
 
@@ -653,5 +664,12 @@ def extendFromSlicesCopy (c : Cfg) (v : VS) (srcs : List (List Elem)) (w : W) : 
   | some v1 =>
     let (v2, w) := copySlices c srcs v1 w
     (v2, w, some ())
+
+/-- `impl io::Write for Vec<'bump, u8>` (vec.rs:2798-2815): `write` and `write_all` are
+`extend_from_slice_copy(buf)`; `write` returns `Ok(buf.len())`, `flush` does nothing -/
+def ioWrite (c : Cfg) (v : VS) (buf : List Elem) (w : W) : VS × W × Option Nat :=
+  match extendFromSliceCopy c v buf w with
+  | (v, w, some _) => (v, w, some buf.length)
+  | (v, w, none) => (v, w, none)
 
 end Bump.V
